@@ -73,7 +73,7 @@ def run(tier):
     spec = C06Spec(tier)
     report = Report(PROP, "model_checking", tier)
     if tier == "quick":
-        explore.run(spec, report, tier, 6, 300000, 150)
+        explore.run(spec, report, tier, 6, 300000, 600)
     else:
         explore.run(spec, report, tier, 8, 2000000, 1800)
     e1check.confirm_all(spec, report)
@@ -81,7 +81,7 @@ def run(tier):
     cov_sync = dict(report.coverage)
     sub = Report(PROP, "model_checking", tier)
     aspec = C06AsyncSpec()
-    explore.run(aspec, sub, tier, 9 if tier == "quick" else 12, 300000, 120 if tier == "quick" else 900)
+    explore.run(aspec, sub, tier, 9 if tier == "quick" else 12, 300000, 400 if tier == "quick" else 900)
     e1check.confirm_all(aspec, sub)
     for viol in sub.violations.values():
         report.add(viol)
